@@ -47,6 +47,12 @@ def draw_config(rng):
     return n, d, fc, sc
 
 
+def _sweep_one(args):
+    import digital_rf
+    work, n, d, fc, sc, js = args
+    return md.placement_sweep(digital_rf, os.path.join(work, "md", "c13-%d" % os.getpid()), n, d, fc, sc, js, limbs, pd.sub_fields)
+
+
 def run(ctx):
     ctx.model_check("MCMdPlacement", "MCMdPlacement.cfg", coverage=False)
     mc.witnesses(ctx, "MCMdPlacement", ["NoEmptyFile", "BoundaryOnGrid"])
@@ -60,25 +66,27 @@ def run(ctx):
     rng = ctx.rng
     evs, tscen = [], []
     nidx = ctx.pick(600, 50000)
-    nconf = 0
+    jobs = []
+    while sum(3 * len(j[5]) for j in jobs) < nidx:
+        n, d, fc, sc = draw_config(rng)
+        y = rng.choice(YEARS + [rng.randint(1980, 2099)])
+        t = calendar.timegm((y, rng.randint(1, 12), rng.randint(1, 28), rng.randint(0, 23), rng.randint(0, 59), rng.randint(0, 59)))
+        j0 = t // fc
+        if rng.random() < 0.5:
+            j0 = ((t // sc) * sc) // fc - rng.randint(0, 3)     # the window of file numbers crosses a subdirectory boundary
+        if rng.random() < 0.5:
+            j0 = (j0 // d) * d - rng.randint(0, 2)                 # ... contains a boundary that falls exactly on an index
+        nj = rng.randint(4, 12)
+        if (j0 + nj) * fc * n // d >= 2**62 or j0 < 1:
+            continue
+        jobs.append((ctx.work, n, d, fc, sc, range(j0, j0 + nj)))
+    nconf = len(jobs)
     with quiet_stderr():
-        while len(evs) < nidx:
-            n, d, fc, sc = draw_config(rng)
-            y = rng.choice(YEARS + [rng.randint(1980, 2099)])
-            t = calendar.timegm((y, rng.randint(1, 12), rng.randint(1, 28), rng.randint(0, 23), rng.randint(0, 59), rng.randint(0, 59)))
-            j0 = t // fc
-            if rng.random() < 0.5:
-                j0 = ((t // sc) * sc) // fc - rng.randint(0, 3)     # the window of file numbers crosses a subdirectory boundary
-            if rng.random() < 0.5:
-                j0 = (j0 // d) * d - rng.randint(0, 2)                 # ... contains a boundary that falls exactly on an index
-            nj = rng.randint(4, 12)
-            if (j0 + nj) * fc * n // d >= 2**62:
-                continue
-            recs = md.placement_sweep(digital_rf, os.path.join(ctx.work, "md", "c13"), n, d, fc, sc, range(j0, j0 + nj), limbs, pd.sub_fields)
-            tscen.append(dict(name="mdplace%d" % nconf, desc="%d/%d Hz, %d s files, %d s subdirs, files %d..%d" % (n, d, fc, sc, j0, j0 + nj - 1),
-                              events=recs))
-            evs += recs
-            nconf += 1
+        with mc._pool(nconf) as ex:
+            for (_, n, d, fc, sc, js), recs in zip(jobs, ex.map(_sweep_one, jobs, chunksize=2)):
+                tscen.append(dict(name="mdplace%d" % len(tscen), events=recs,
+                                  desc="%d/%d Hz, %d s files, %d s subdirs, files %d..%d" % (n, d, fc, sc, js[0], js[-1])))
+                evs += recs
         # protocol half: histories of the metadata model (files found on disk against the partition of the specification)
         s1, bad = mc.e2(ctx, digital_rf, ctx.pick(15, 400), ctx.pick(18, 26), deep=False)
         s2 = mc.e3(ctx, digital_rf, ctx.pick(20, 600), "c12")
